@@ -156,8 +156,10 @@ def record(cfg: dict, seed: int, terms: dict) -> sweep.SweepLog:
     i = cfg["i"]
     rng = np.random.default_rng([seed, 15, i, 1])
     sw = cfg["Sw"]
-    tab = mp.make_table(rng, cfg["family"], sw)
-    kr_so, kr_cols, kr_meta = mp.relperm_table(rng, sw, cfg["kr"])
+    # rel-perm curves (functions of So, immobile water) that were built for a somewhat larger water saturation than the reservoir's
+    sw_kr = sw + 0.05 if (i % 3 == 0 and i >= len(FAMILIES)) else sw
+    tab = mp.make_table(rng, cfg["family"], sw_kr)
+    kr_so, kr_cols, kr_meta = mp.relperm_table(rng, sw_kr, cfg["kr"])
     rho = dict(mp.RHO_SHIPPED) if cfg["shipped_rho"] else mp.random_rho(rng)
     phi = float(rng.uniform(0.03, 0.3))
     P, so = tab["P"], tab["So"]
@@ -181,7 +183,7 @@ def record(cfg: dict, seed: int, terms: dict) -> sweep.SweepLog:
     ma = mp.quiet(pseudopressure_threephase, P_code, so, pvt_a, kr)
     k_i = int(rng.integers(max(2, n // 3), n))  # initial pressure = a table node
     p_i = float(P[k_i])
-    pvt_t, kr_t = mp.frames(P_code, tab["cols"], so, kr_so, kr_cols, sw, as_frame=bool(i % 2 == 0))
+    pvt_t, kr_t = mp.frames(P_code, tab["cols"], so, kr_so, kr_cols, sw_kr, as_frame=bool(i % 2 == 0))
     fp = mp.from_table(pvt_t, kr_t, rho, phi, sw, p_i)
     sub = np.asarray(fp.pvt_props["pseudopressure"], float)
     col = np.asarray(fp.pvt_props["m-scaled"], float)
